@@ -79,6 +79,14 @@ PtrLoadAllowed(ev) ==
 \* obtained is null or inside the sandbox it belongs to, or the operation aborted (C03 NeverOut)
 NeverOut(ev) == ev.cls \in {"abort", "null"} \/ (ev.cls = "in" /\ ev.sb = ev.own)
 
+\* C02, the two checked entry points for raw pointers (assign_raw_pointer on tainted and on
+\* tainted_volatile, UNSAFE_accept_pointer): accepted exactly when the address lies inside THAT
+\* sandbox's memory; then the tainted holds the address and the sandbox cell its representation
+EntryAllowed(ev) ==
+  IF ev.cls = "in" /\ ev.sb = "s0"
+    THEN ev.out = "ok" /\ Eq(ev.stored, FromInt(ev.off))
+    ELSE ev.out = "abort"
+
 \* storing application address (sb, off) into a pointer cell of sandbox `own`
 PtrStoreAllowed(ev) ==
   CASE ev.cls = "null" -> ev.out = "ok" /\ IsZero(ev.rep)
